@@ -145,17 +145,43 @@ fn rename_tokens(sql: &str, ren: &BTreeMap<String, String>) -> String {
     out
 }
 
-/// shadow block `… FROM w AS a CROSS JOIN (WITH w AS (inner) SELECT … FROM w AS b) AS d`: inner column names := outer column names
-fn align_shadow(q: &QueryExpr) -> Option<String> {
-    let outer = cols_of(&q.with.last()?.1.body);
+/// the pieces of a shadow block `… FROM w AS a CROSS JOIN (WITH w AS (inner) SELECT … FROM w AS b) AS d`
+fn shadow_parts(q: &QueryExpr) -> Option<&QueryExpr> {
     let Body::Select(s) = &q.body else { return None };
     let Some(Rel::Join { r, .. }) = &s.from else { return None };
     let Rel::Derived { q: iq, .. } = &**r else { return None };
     if iq.with.len() != 1 || iq.with[0].0 != q.with.last()?.0 { return None; }
+    Some(iq)
+}
+
+/// inner column names := outer column names (token renaming to apply to the statement text)
+fn align_shadow(q: &QueryExpr) -> Option<BTreeMap<String, String>> {
+    let outer = cols_of(&q.with.last()?.1.body);
+    let iq = shadow_parts(q)?;
     let inner = cols_of(&iq.with[0].1.body);
     let ren: BTreeMap<String, String> = inner.iter().zip(outer.iter()).map(|(i, o)| (i.clone(), o.clone())).collect();
-    if ren.is_empty() { return None; }
-    Some(rename_tokens(&q.sql(), &ren))
+    if ren.is_empty() { None } else { Some(ren) }
+}
+
+/// the CTE-free rendering of a shadow statement, every reference resolved LEXICALLY
+fn inline_shadow(q: &QueryExpr) -> Option<String> {
+    let iq = shadow_parts(q)?;
+    let mut names: Vec<&String> = q.with.iter().map(|(n, _)| n).collect(); names.sort(); names.dedup();
+    if names.len() != q.with.len() || q.with.iter().any(|(_, d)| !d.with.is_empty()) || !iq.with[0].1.with.is_empty() { return None; }
+    let mut inl: BTreeMap<String, String> = BTreeMap::new();
+    for (n, d) in &q.with { let t = replace_refs(&d.sql(), &inl); inl.insert(n.clone(), t); }
+    // inside the derived table the name means the inner definition (whose own text still sees the outer one)
+    let mut inner = inl.clone();
+    inner.insert(iq.with[0].0.clone(), replace_refs(&iq.with[0].1.sql(), &inl));
+    let inner_body = QueryExpr { with: vec![], body: iq.body.clone(), order: iq.order.clone(), limit: iq.limit.clone() };
+    let new_derived = replace_refs(&inner_body.sql(), &inner);
+    let body = QueryExpr { with: vec![], body: q.body.clone(), order: q.order.clone(), limit: q.limit.clone() };
+    let text = body.sql();
+    let old_derived = iq.sql();
+    let at = text.find(&old_derived)?;
+    let head = replace_refs(&text[..at], &inl);
+    let tail = replace_refs(&text[at + old_derived.len()..], &inl);
+    Some(format!("{}{}{}", head, new_derived, tail))
 }
 
 fn run_one(case: &Value) -> Value {
@@ -201,7 +227,13 @@ pub fn main(o: &Opts) {
         let mut defs = Defs::new();
         collect_q(&g.q, &mut defs);
         if g.tags.iter().any(|t| t == "f:cte_shadow") {
-            if n % 2 == 0 { if let Some(t) = align_shadow(&g.q) { case["sql"] = json!(t); case["tags"].as_array_mut().map(|a| a.push(json!("f:shadow_same_columns"))); } }
+            let ren = if n % 2 == 0 { align_shadow(&g.q) } else { None };
+            let inl = inline_shadow(&g.q);
+            if let Some(ren) = &ren {
+                case["sql"] = json!(rename_tokens(case["sql"].as_str().unwrap_or(""), ren));
+                case["tags"].as_array_mut().map(|a| a.push(json!("f:shadow_same_columns")));
+            }
+            if let Some(t) = inl { case["inline_sql"] = json!(match &ren { Some(r) => rename_tokens(&t, r), None => t }); }
         } else if let Some(t) = inline_sql(&g.q, &defs) { case["inline_sql"] = json!(t); }
         if g.tags.iter().any(|t| t == "f:dup_derived_names") {
             if let Some(ns) = neutral_sql(case["sql"].as_str().unwrap_or(""), &defs) { case["neutral_sql"] = json!(ns); }
